@@ -164,7 +164,7 @@ def gen_cmp(tier, rnd):
                             continue
                         evs.append(cmp_event(i, k1, u1, a, k2, u2, b_same, 'same')); i += 1
                         # clearly different magnitudes: relative gaps 1e-6 and 0.5, either side
-                        for rel in (1e-6, -1e-6, 0.5, -0.3):
+                        for rel in (1e-6, -1e-6, 0.5, -0.3, 1e-10, -3e-11):       # (the last two: far above rounding, far below a percent)
                             b = nearest_float(spectab.to_unit(A * (1 + Fraction(rel)), k2, u2))
                             if legal(k2, b) and b != 0.0:
                                 evs.append(cmp_event(i, k1, u1, a, k2, u2, b, f'gap{rel}')); i += 1
